@@ -58,7 +58,7 @@ func init() { register(c02{}) }
 func (c02) ID() string    { return "C02" }
 func (c02) Level() string { return "exploration" }
 func (c02) Rule() string {
-	return "one case = one accepted configuration + 1..4 browser intents (origin: matching or near-miss of a pattern; method as the page wrote it; subset of a 10-name CORS-unsafe header universe incl. authorization; credentials include/omit; private-network target yes/no) + 0..3 in-flight alterations of Access-Control-Request-Headers within the documented tolerance; the debug-off and debug-on middlewares reach their state through one of five API routes (fresh, zero value+Reconfigure, via another configuration, through passthrough, via Reconfigure(Config())); every intent is run four ways in the same simulated world (debug off/on x alterations off/on) as a full protocol run (preflight when Fetch requires one, then the actual request); distinct = distinct plan hash; non-trivial = at least one intent needed a preflight"
+	return "one case = one accepted configuration + 1..4 browser intents (origin: matching or near-miss of a pattern; method as the page wrote it; subset of a 10-name CORS-unsafe header universe incl. authorization; credentials include/omit; private-network target yes/no) + 0..3 in-flight alterations of Access-Control-Request-Headers within the documented tolerance; the debug-off and debug-on middlewares reach their state through one of six API routes (fresh, zero value+Reconfigure, via another configuration, through passthrough, via Reconfigure(Config()), via a Config value edited in place and passed again); every intent is run four ways in the same simulated world (debug off/on x alterations off/on) as a full protocol run (preflight when Fetch requires one, then the actual request); distinct = distinct plan hash; non-trivial = at least one intent needed a preflight"
 }
 func (c02) Budget(tier string) (int, time.Duration) {
 	if tier == "thorough" {
@@ -202,7 +202,7 @@ func (c02) Gen(r *R, tier string) any {
 	if r.P(0.5) {
 		o := genCfg(r)
 		p.Other = &o
-		p.Routes = [2]int{r.Intn(5), r.Intn(5)}
+		p.Routes = [2]int{r.Intn(6), r.Intn(6)}
 	}
 	k := pick(r, []int{0, 1, 2, 3, 3, 4, 6})
 	kinds := []string{"ows_left", "ows_right", "ows_both", "empty", "empty", "split", "split", "empty_line"}
@@ -590,7 +590,7 @@ func viaRoute(route int, cfg Cfg, other *Cfg, debug bool, c *Ctx) (m *cors.Middl
 	if other == nil {
 		route = 0
 	}
-	route %= 5
+	route %= 6
 	pan := catch(func() {
 		cc := cfg.Config()
 		switch route {
@@ -642,6 +642,24 @@ func viaRoute(route int, cfg Cfg, other *Cfg, debug bool, c *Ctx) (m *cors.Middl
 				return
 			}
 			installed = *fromConfig(snap)
+		case 5:
+			// hot reload: the operator keeps ONE Config value, edits it in place (same
+			// backing arrays where they are big enough) and passes the same pointer again
+			live := other.Config()
+			m = new(cors.Middleware)
+			if m.Reconfigure(&live) != nil {
+				m = nil
+				return
+			}
+			m.SetDebug(debug)
+			live.Origins = append(live.Origins[:0], cc.Origins...)
+			live.Methods = append(live.Methods[:0], cc.Methods...)
+			live.RequestHeaders = append(live.RequestHeaders[:0], cc.RequestHeaders...)
+			live.ResponseHeaders = append(live.ResponseHeaders[:0], cc.ResponseHeaders...)
+			live.Credentialed, live.MaxAgeInSeconds, live.ExtraConfig = cc.Credentialed, cc.MaxAgeInSeconds, cc.ExtraConfig
+			if m.Reconfigure(&live) != nil {
+				m = nil
+			}
 		}
 	})
 	if pan != "" || m == nil {
